@@ -1,6 +1,8 @@
 package hx
 
 import (
+	"time"
+
 	"pgregory.net/rapid"
 	"verif.local/simrt"
 )
@@ -23,3 +25,6 @@ type Failure struct {
 }
 
 func (f *Failure) Error() string { return f.Tag + ": " + f.Msg }
+
+// Ms is a shorthand.
+func Ms(n int) time.Duration { return time.Duration(n) * time.Millisecond }
